@@ -123,6 +123,8 @@ PREDS = {
     "P[A]": (lambda: P[A], lambda st: _last(st)[0] == "A", True),
     "P[int]": (lambda: P[int], lambda st: _last(st)[0] == "int", True),
     "ListA": (lambda: List[A], lambda st: _last(st)[0] == "ListA", False),
+    # the bare origin of a generic: matches every parametrisation (here the only list type of the universe)
+    "list": (lambda: list, lambda st: _last(st)[0] == "ListA", True),
     "Abs": (lambda: Abs, lambda st: _last(st)[0] == "C1", False),
     "ANY": (lambda: P.ANY, lambda st: True, False),
     "P[A,B]": (lambda: P[A, B], lambda st: _last(st)[0] in ("A", "B"), False),
